@@ -496,6 +496,29 @@ def main():
         out.append("  xorDirect := " + llist(xor[2]) + ",")
         out.append("  invClauses := " + llist(xor[3], lean_clause) + " }")
 
+    # ---- the Verilog grammar file: every rule / terminal with its whitespace-normalised right-hand side
+    gram = None
+    try:
+        rules = []
+        with open(os.path.join(SRC, "parsing", "verilog.lark")) as f:
+            cur = None
+            for line in f:
+                line = line.split("//")[0].rstrip() if not line.lstrip().startswith("COMMENT") and "/\\/" not in line else line.rstrip()
+                if not line.strip() or line.lstrip().startswith("%"):
+                    continue
+                if line[0] not in " \t|" and ":" in line:
+                    name, rhs = line.split(":", 1)
+                    cur = [name.strip(), rhs.strip()]
+                    rules.append(cur)
+                elif cur is not None:
+                    cur[1] += " " + line.strip()
+        gram = [(n, " ".join(r.split())) for n, r in rules]
+    except OSError:
+        gram = None
+    status["grammar"] = "ok" if gram else "lost"
+    out.append("def grammar : Option (List (String × String)) := " +
+               lopt(gram, lambda g: llist(g, lambda kv: f"({lstr(kv[0])}, {lstr(kv[1])})")))
+
     # ---- regular expressions of the readers, as `re` receives them
     rx = capture_regexes()
     for tag, n in (("bench", 4), ("fast", 7), ("module", 1)):
